@@ -25,10 +25,12 @@
   Operations on dead entries are rejected (`Out.bad`, state unchanged).  `stepPinned` is the machine with the
   pre-fix `Memoize` (no clip): defect D1 is expressible (Props/C07.lean, `c07_pinned_corrupts`).
 
-  Simplifications, each justified by an invariant proved in Proofs/SliceInv.lean (`Inv.cellok`): array cells
-  never hold list handles (`NodeList.Append` flattens, seq.parse iterates over a list result and passes its
-  elements on), so the recursion of `NodeList.Append` / `NodeList.SetReaderPos` into a nested list is not
-  modelled (such a cell would be left as it is and rendered as `nested`).
+  Simplifications, each justified by an invariant proved for every reachable state (Props/C07.lean,
+  `c07_cells_flat`, `c07_lists_wellformed`): array cells never hold list handles (`NodeList.Append` flattens,
+  seq.parse iterates over a list result and passes its elements on), so the recursion of `NodeList.Append` /
+  `NodeList.SetReaderPos` into a nested list is not modelled (such a cell would be left as it is and rendered
+  as `nested`); a held list never has a nil element, so the panic of `ast.SetReaderPos(nil, …)` inside
+  `NodeList.SetReaderPos` is not modelled (a nil cell would be left as it is).
 -/
 namespace PV.Slice
 
